@@ -16,6 +16,13 @@ CHECKS = {
   text="Every query tree up to depth 2 (quick; depth 3 over a reduced pool in thorough) built from 12 leaves (empty, four patterns sharing variables, seven code templates) with and/or/or+shortCircuit of arity 0..2 and not, is evaluated on every subset of a 4-fact universe, with the facts local or split between the location and its parent, by Location.Query and, wrapped as a rule condition, by ProcessEvent; results (or the error) are compared as multisets with a 60-line reference evaluator written from the property statement.",
   note="Trusts core.Matches for fact matching (C05) and the native evaluation of the seven code templates in the reference. Bounded tree depth/arity.",
   design="2/C03"),
+ "C06": dict(
+  engine="SEQ+FAULT",
+  category="model_checking",
+  technique="explicit-state model checking with exhaustive crash-point and single-fault enumeration: BFS over operation histories on the real Location over a recording storage wrapper (memory and bolt), differential live-vs-reloaded oracle",
+  text="BFS over AddFact (6 expiry/dependency shapes) / AddRule / RemFact / RemRule / EnableRule / SetParents / Clear histories (depth 4 memory, 3 bolt quick; 5/4 thorough) on {indexed, linear} x {memory, bolt}. In every explored transition: a location rebuilt from storage (virtual clock +10 s) must have the same full observation vector as the live one; for EVERY storage call of the operation the history is re-run with the process dying at that call (each stored id must hold its before- or after-value) and with that call failing (the API call must report an error; one further operation must then be durable if acknowledged). Every write history up to length 3/4 is also run against data previously handed out by Storage.Load (bolt mmap aliasing).",
+  note="Crash model: a Storage call is atomic and durable once it returns (bolt transaction); torn bolt pages are out of scope. Worker death while reading loaded data is attributed to the journaled case and reported as a violation.",
+  design="2/C06"),
  "C07": dict(
   engine="SEQ",
   technique="explicit-state model checking under a harness-owned virtual clock: exhaustive BFS over write / clock-advance / reload / observe sequences, state-hash dedup, reference-model oracle",
@@ -72,6 +79,7 @@ def main():
         "engines": [
             {"name": "INSTR", "path": "instr/", "serves_properties": sorted(CHECKS), "kind_free_text": "source-to-source rewriter producing a build overlay: virtual clock, owned map-iteration order, (level 2) cooperative scheduler hooks for sync/go/channels"},
             {"name": "GEN", "path": "harness/lib/gen.go", "serves_properties": [k for k, v in sorted(CHECKS.items()) if "GEN" in v["engine"]], "kind_free_text": "bounded-exhaustive term enumeration (all JSON terms up to a node budget over a fixed leaf alphabet, size-ordered)"},
+            {"name": "FAULT", "path": "harness/lib/env.go (RecStore)", "serves_properties": [k for k, v in sorted(CHECKS.items()) if "FAULT" in v["engine"]], "kind_free_text": "recording Storage wrapper: exhaustive crash-at-call-k and fail-call-k enumeration over the storage calls of every explored transition"},
             {"name": "SEQ", "path": "harness/lib/seq.go", "serves_properties": [k for k, v in sorted(CHECKS.items()) if "SEQ" in v["engine"]], "kind_free_text": "explicit-state BFS over operation sequences of the real code, replay-from-fresh successors, canonical-state dedup including private implementation state, reference-model oracle"},
         ],
         "checks": checks,
